@@ -32,7 +32,7 @@ CLAIMED = {
         "exploration",
         "exhaustive enumeration of operation classes x parameter kinds x dagger x mode order, of short sequences, option combinations and TDM programs, through the real writers and readers of both IRs and generate_code, compared in a normal form and by reference maps",
         "24 real-parameter operation slots x 11 parameter kinds (int, float, negative, tiny, numpy scalar, pi/3, free symbol, expression of free symbols, measured symbol, expressions of measured / mixed symbols) x dagger x two mode orders; 28 fixed operations (matrix-valued, Ket/DensityMatrix, Catstate, GKP, measurements with select / dark_counts); all sequences up to length 2 (3) over 9 letters (feed-forward, post-selection, daggers, multi-mode measurements); name/target/shots/cutoff_dim combinations; TDM programs (3 layouts x 2 lengths x 2 shifts). Each is written with to_blackbird().serialize() and to_xir().serialize(), re-loaded with sf.io.loads, and via generate_code: same normal form (class, parameters, modes in order, select, dark_counts, dagger - a daggered gate of a one-parameter family may be written as the gate with negated first parameter), same options, same reference map.",
-        "A writer or reader that raises is counted, not reported (many symbolic cases raise on reading: see evidence stats). Four recorded findings (free symbols become strings in Blackbird; measured symbols of measurement angles become strings in XIR; MZgate.H written as MZgate(-phi_in)).",
+        "A writer or reader that raises is counted, not reported (many symbolic cases raise on reading: see evidence stats). Five recorded findings (free symbols become strings in Blackbird; measured symbols of measurement angles become strings in XIR; MZgate.H written as MZgate(-phi_in); generated scripts use np.pi without importing numpy).",
         "DESIGN.md section 4 (C14)",
     ),
     "C15": (
@@ -46,7 +46,7 @@ CLAIMED = {
         "model_checking",
         "exhaustive enumeration of reachable states x every state-object query x every mode subset/order, on three representations, against closed Gaussian formulas and a dense truncated-Fock reference",
         "Every state reached by <= 2 operations of an 8-letter small-amplitude alphabet on 2 modes (<= 3 on 1 mode, <= 1-2 on 3 modes for the phase-space representations), deduplicated (441 state objects quick), is built on the Gaussian, bosonic and Fock simulators and asked ~40 queries each: mean_photon, number_expectation (all ordered pairs), quad_expectation (3 angles), wigner (non-square grid), parity_expectation and reduced_dm on every subset/order, fock_prob on all patterns with <= 2 photons, all_fock_probs, fidelity_vacuum / fidelity_coherent, is_pure, poly_quad_expectation. Every answer equals the independent reference; identities between methods hold; a method asked about subset S agrees with the same method on backend.state(modes=S); no query mutates the state.",
-        "Reference truncation error (cutoff 12) is measured per state and enters the tolerance (x4 c^2 for moments); phase-space reduced_dm is compared up to the norm beyond the requested cutoff. wigner is compared in the orientation returned ([len(pvec), len(xvec)] on all representations; the docstring says the transpose). is_pure of Fock/bosonic states reports the representation and is not judged.",
+        "One recorded finding (fock_prob / reduced_dm of bosonic cat states in the complex representation). Reference truncation error (cutoff 12) is measured per state and enters the tolerance (x4 c^2 for moments); phase-space reduced_dm is compared up to the norm beyond the requested cutoff. wigner is compared in the orientation returned ([len(pvec), len(xvec)] on all representations; the docstring says the transpose). is_pure of Fock/bosonic states reports the representation and is not judged.",
         "DESIGN.md section 4 (C16)",
     ),
     "C02": (
@@ -95,7 +95,7 @@ CLAIMED = {
         "model_checking",
         "exhaustive enumeration of a TDM program family run through the real unroll/space_unroll/engine, judged against an explicit-loop reference; choice-controlled sample routing; BFS over unroll/roll/run call histories",
         "Every time-domain program of a finite family (4-6 band layouts x every gate sequence up to length 3 (thorough 4) over a per-layout gate set x 1-3 (5) time bins x shift in {default,1,2} x shots x homodyne/heterodyne(/Fock)) - 1.7e5 programs quick - is unrolled by the real TDMProgram.unroll and space_unroll; the unrolled circuit, interpreted with deferred measurements, must give the same joint Gaussian state of all measured pulses as my explicit loop with a fresh mode per pulse; Result.state of space-unrolled runs must equal the pulses; with the random source answering the k-th measurement with k, Result.samples[shot, band, bin] and samples_dict must hold the ordinal of that pulse. A BFS over histories of unroll(1|2), space_unroll(1|2), roll, lock, run, run(space_unroll), compile on three programs checks that after every call circuit and register equal what a fresh program reaches directly, and that `locked` is preserved.",
-        "Four recorded findings (integer shift in sample routing and in space-unrolling, multi-shot space-unrolling, sampling from space-unrolled runs) are matched by one signature each; programs under those conditions are still executed but cannot reveal a second defect of the same kind. Parameter arrays fixed (all bins distinct).",
+        "Seven recorded findings (integer shift in sample routing and in space-unrolling, multi-shot space-unrolling, sampling from space-unrolled runs; get_crop_value with a full-swap beamsplitter value on the three two-loop structures) are matched by one signature each; programs under those conditions are still executed but cannot reveal a second defect of the same kind. Parameter arrays fixed (all bins distinct).",
         "DESIGN.md section 4 (C13)",
     ),
     "C08": (
